@@ -7,5 +7,8 @@ mkdir -p ../bin ../evidence ../replays
 go build -tags verif -o ../bin/mc ./cmd/mc || exit 2
 # the race-instrumented standard library is compiled once here (C17's race pass builds bin/mc-race on every run)
 go build -race -tags verif -o ../bin/mc-race ./cmd/mc || echo "note: -race build failed; C17's race pass will be skipped"
+# the overlay build of C17's collector-in-the-window pass (run.sh rebuilds it on every C17 run)
+GDIR="$(go list -m -f '{{.Dir}}' gorgonia.org/tensor)"
+python3 ../tools/gcw_overlay.py "$GDIR" "$(cd .. && pwd)/build/gcw" && go build -tags verif -overlay ../build/gcw/overlay.json -o ../bin/mc-gcw ./cmd/mc || echo "note: gc-window build failed; that pass of C17 will be skipped"
 ../bin/mc selfcheck || exit 2
 echo "setup ok"
